@@ -870,7 +870,7 @@ def tickLoop (gran : Rat) : Nat → Nat → Seq → List (List Out) → Seq × L
     if s.cur.wait ≤ fmul gran (1 / 2) && af > 0 then
       let (cont, s, o) := processEvents s false
       if !cont then (s, o :: outs, af) else
-      tickLoop gran fuel (if s.cur.wait ≤ 0 then af - 1 else af) s (o :: outs)
+      tickLoop gran fuel (if s.cur.wait ≤ fmul gran (1 / 2) then af - 1 else af) s (o :: outs)
     else (s, outs, af)
 
 /-- BW_MidiSequencer::Tick: returns the delay until the next call (the outputs are collected newest-first and flattened once) -/
